@@ -231,6 +231,7 @@ func (tcFamily) Emit(w io.Writer, f *hc.File) {
 		var p tcParams
 		must(json.Unmarshal(c.Params, &p))
 		var ops []string
+		curSleep := p.Sleep
 		for _, raw := range c.Ops {
 			var o tcOp
 			must(json.Unmarshal(raw, &o))
@@ -242,8 +243,11 @@ func (tcFamily) Emit(w io.Writer, f *hc.File) {
 			case "fire":
 				ops = append(ops, fmt.Sprintf("TFire %d%%nat", o.T))
 			case "setafter":
-				ops = append(ops, "TFire 1000000%nat") // the model's no-op
+				// the model's no-op: the sleep duration set to what it is (a large nat literal as a dead timer
+				// index would cost megabytes per occurrence)
+				ops = append(ops, "TSetSleep "+hc.Zi(curSleep))
 			case "setsleep":
+				curSleep = o.T
 				ops = append(ops, "TSetSleep "+hc.Zi(o.T))
 			case "setbudget":
 				ops = append(ops, "TSetBudget "+hc.Zi(o.T))
